@@ -509,6 +509,9 @@ def run(F, rep):
     import c16
     if not getattr(rep, 'nested', False):
         core.borrow(F, rep, c16, only={'C16.P1'})
+        # printing (and the parse that follows) must return at all: std::regex over model text recurses once per repetition (clause shared with C01)
+        import c01
+        core.borrow(F, rep, c01, only={'C01.X6'})
 
     # ------------------------------------------------------------------ A: flags gathered over loops
     from engines import rule_accumulators
